@@ -1496,7 +1496,8 @@ class SpaceManager(SharedSpaceOperations):
         if other is not None:
             if not isinstance(other, ReferenceImpl):
                 raise ValueError("Cannot create reference '%s'" % name)
-            elif other not in self.model.global_refs.values():
+            elif (other not in self.model.global_refs.values()
+                    and other.is_defined()):
                 raise ValueError("Cannot create reference '%s'" % name)
 
         self._check_subs_relrefs(space, name, value, refmode)
@@ -1506,7 +1507,13 @@ class SpaceManager(SharedSpaceOperations):
         for subspace in self._get_subs(space):
             is_relative = False
             if name in subspace.own_refs:
-                break
+                subref = subspace.own_refs[name]
+                if subref.is_defined():
+                    break
+                elif self.get_deriv_bases(
+                        subref, defined_only=True)[0] is not result:
+                    continue    # Derived from a base preceding ``space``
+                subspace.on_del_ref(name)   # Re-derive from ``space``
             if isinstance(value, Interface) and value._is_valid():
                 if refmode == "auto" or refmode == "relative":
                     is_relative, value = self.get_relative_interface(
